@@ -1,5 +1,135 @@
+//! C09: dump the full game tree the search explores (the engine's own generator and leaf scores:
+//! checked moves at interior nodes, unchecked at the frontier, tactical-only below it) and the score
+//! the real optimised search returns for it with table lookups disabled, under several move-ordering
+//! states (fresh and arbitrarily pre-filled history tables).  TLC evaluates the unpruned, unordered
+//! reference (RefSearch.tla) on the dumped tree and compares.
+//!
+//! Script: {"cases": [{"fen": F, "pre": [...], "d": depth, "orders": k, "seed": s}]}
+use crate::chess::Game;
+use crate::obs::{self, guard};
+use crate::play::{emit, open_out};
+use crate::rng::Rng;
+use crate::search::{get_best_move_entry, TranspositionTable};
+use crate::searchdrv::{build_game, Capture};
+use crate::verif;
 use crate::Args;
-pub fn run(_args: &Args) {
-    eprintln!("TOOL-ERROR not implemented");
-    std::process::exit(2);
+use serde_json::{json, Value};
+use std::io::Write;
+use std::sync::atomic::AtomicBool;
+
+const MAX_NODES: usize = 60000;
+
+struct Node {
+    ev: i32,
+    kx: bool,
+    chk: bool,
+    nm: usize,
+    r: i32,
+    p: i32,
+    ch: Vec<usize>,
+}
+
+fn build(g: &mut Game, r: i32, ply: i32, is_root: bool, nodes: &mut Vec<Node>) -> usize {
+    let id = nodes.len();
+    let player = g.player();
+    let side = if player == crate::chess::Player::White { 1 } else { -1 };
+    let kx = g.king_exists(player);
+    let chk = kx && g.is_targeted(g.get_king_position(player), player);
+    nodes.push(Node { ev: g.score() as i32 * side, kx, chk, nm: 0, r, p: ply, ch: vec![] });
+    if nodes.len() > MAX_NODES {
+        return id;
+    }
+    let mv = obs::gen(g, is_root || r >= 2);
+    nodes[id].nm = mv.len();
+    for m in mv {
+        if r <= 0 && !m.is_tactical_move() {
+            continue;
+        }
+        if nodes.len() > MAX_NODES {
+            break;
+        }
+        g.push(m);
+        let c = build(g, r - 1, ply + 1, false, nodes);
+        g.pop(m);
+        nodes[id].ch.push(c);
+    }
+    id
+}
+
+pub fn run(args: &Args) {
+    let text = std::fs::read_to_string(args.req("script")).unwrap_or_else(|e| {
+        eprintln!("TOOL-ERROR cannot read script: {}", e);
+        std::process::exit(2)
+    });
+    let v: Value = serde_json::from_str(&text).unwrap();
+    let mut out = open_out(args.req("out"));
+    let mut cap = Capture::new();
+    for case in v["cases"].as_array().cloned().unwrap_or_default() {
+        let fen = case["fen"].as_str().unwrap_or("startpos").to_string();
+        let pre: Vec<String> = case["pre"].as_array().map(|a| a.iter().map(|x| x.as_str().unwrap_or("").to_string()).collect()).unwrap_or_default();
+        let d = case["d"].as_i64().unwrap_or(1) as i32;
+        let orders = case["orders"].as_u64().unwrap_or(2) as usize;
+        let mut rng = Rng::new(case["seed"].as_u64().unwrap_or(1));
+        let base = json!({"ev": "tree", "fen": fen, "pre": pre, "d": d});
+        let game = match build_game(&fen, &pre) {
+            Ok(g) => g,
+            Err(msg) => {
+                let mut e = base.clone();
+                e["skip"] = json!(msg);
+                emit(&mut out, e);
+                continue;
+            }
+        };
+        let mut nodes: Vec<Node> = vec![];
+        let mut g = game.clone();
+        let built = guard(|| {
+            build(&mut g, d, 0, true, &mut nodes);
+        });
+        if let Err(msg) = built {
+            let mut e = base.clone();
+            e["panic"] = json!(msg);
+            emit(&mut out, e);
+            continue;
+        }
+        if nodes.len() > MAX_NODES {
+            let mut e = base.clone();
+            e["skip"] = json!("tree too large");
+            emit(&mut out, e);
+            continue;
+        }
+        // the real search, table lookups disabled, under several ordering states
+        let mut runs = vec![];
+        for k in 0..orders {
+            let mut hist = [0u16; 768];
+            if k > 0 {
+                for h in hist.iter_mut() {
+                    *h = (rng.next() % 9000) as u16;
+                }
+            }
+            let mut table: TranspositionTable = Default::default();
+            let flag = AtomicBool::new(true);
+            verif::reset(u64::MAX, true);
+            cap.begin();
+            let g2 = game.clone();
+            let r = guard(|| get_best_move_entry(g2, &flag, d as u8, &mut table, &mut hist));
+            let _ = cap.end();
+            verif::reset(u64::MAX, false);
+            match r {
+                Ok(Some((best, score, only))) => runs.push(json!({"score": score, "only": only,
+                    "best": best.map(|m| m.uci_notation()).unwrap_or("none".to_string()), "order": k, "polls": verif::POLLS.load(std::sync::atomic::Ordering::Relaxed)})),
+                Ok(None) => runs.push(json!({"aborted": true, "order": k})),
+                Err(msg) => runs.push(json!({"panic": msg, "order": k})),
+            }
+        }
+        let js: Vec<Value> = nodes
+            .iter()
+            .map(|n| json!({"ev": n.ev, "kx": n.kx, "chk": n.chk, "nm": n.nm, "r": n.r, "p": n.p, "ch": n.ch.iter().map(|c| c + 1).collect::<Vec<_>>()}))
+            .collect();
+        let mut e = base.clone();
+        e["n"] = json!(nodes.len());
+        e["runs"] = json!(runs);
+        e["nodes"] = json!(js);
+        emit(&mut out, e);
+    }
+    out.flush().unwrap();
 }
